@@ -18221,6 +18221,7 @@ func LazyExportAST(log logger.Log, source logger.Source, options Options, expr j
 		p.currentPart = &part
 		if len(helperCall.Global) > 0 {
 			ref := p.newSymbol(ast.SymbolUnbound, helperCall.Global[0])
+			p.moduleScope.Generated = append(p.moduleScope.Generated, ref)
 			p.recordUsage(ref)
 			target := js_ast.Expr{Data: &js_ast.EIdentifier{Ref: ref}}
 			kind := js_ast.NormalCall
